@@ -40,7 +40,7 @@ def run_task(task):
         # targets must exist (a contract whose target vanished is an error, not a pass)
         for tq in sdef.targets:
             I.repo.find(tq)
-        timeout = 20000 if tier == "quick" else 90000
+        timeout = 20000 if tier == "quick" else 90000  # "thorough" and "retry" use the long budget
         results = I.run_paths(lambda: sdef.fn(spec.Session(I, sdef, cfg)))
         out["paths"] = len(results)
         prefix = f"{prop}/{sname}" + (f"[{cfg}]" if cfg is not None else "")
@@ -70,7 +70,7 @@ def run_task(task):
                         if shp and shp[0].same(d):
                             ob.hyps = list(ob.hyps) + [stmt(tuple(ix[0]))]
                 name = ob.name if "/" in ob.name else f"{prefix}/{ob.name}"
-                r = solve.discharge(ctx, ob, timeout, use_cvc5=(tier == "thorough"))
+                r = solve.discharge(ctx, ob, timeout, use_cvc5=(tier == "thorough"))  # retry: long budget, no cross-check
                 rec = {
                     "name": name,
                     "kind": ob.kind,
@@ -146,7 +146,24 @@ def run_property(prop, tier="quick", only=None, jobs=None):
         return []
     jobs = jobs or min(16, len(tasks))
     if jobs == 1 or len(tasks) == 1:
-        return [run_task(t) for t in tasks]
-    ctxm = mp.get_context("fork")
-    with ctxm.Pool(jobs, maxtasksperchild=1) as pool:
-        return pool.map(run_task, tasks, chunksize=1)
+        results = [run_task(t) for t in tasks]
+    else:
+        ctxm = mp.get_context("fork")
+        with ctxm.Pool(jobs, maxtasksperchild=1) as pool:
+            results = pool.map(run_task, tasks, chunksize=1)
+    # verdicts must not depend on machine load: scenarios that left an obligation UNDECIDED (solver budget) are run
+    # once more with the long budget and at most 4 at a time; a second 'unknown' stays undecided (never a violation)
+    if tier == "quick":
+        redo = [i for i, r in enumerate(results) if not r["error"] and any(o["status"] == "unknown" for o in r["obligations"])]
+        if redo:
+            rt = [(tasks[i][0], tasks[i][1], tasks[i][2], "retry") for i in redo]
+            if len(rt) == 1:
+                again = [run_task(rt[0])]
+            else:
+                ctxm = mp.get_context("fork")
+                with ctxm.Pool(min(4, len(rt)), maxtasksperchild=1) as pool:
+                    again = pool.map(run_task, rt, chunksize=1)
+            for i, r in zip(redo, again):
+                r["retried"] = True
+                results[i] = r
+    return results
